@@ -218,6 +218,10 @@ def gen_history(seed, tier):
         for _ in range(rng.randint(4, 9)):
             r = rng.random()
             s = gen.pick(rng, shots)
+            prev = [o for o in prog if o.get("op") in ("zero", "elev")]
+            if prev and rng.random() < 0.25:
+                prog.append(dict(gen.pick(rng, prev)))       # the same zeroing again (same weapon, same distance)
+                continue
             if r < 0.4:
                 prog.append({"op": "zero", "calc": good, "shot": s, "dist": simgen.gen_range(rng, 25, 500)})
             elif r < 0.6:
